@@ -97,3 +97,18 @@ Definition chk_remove_edge (p : poly) (A B : Z) (ok : bool) (p' : poly) : bool :
   | Some q => ok && polys_eqb [q] [p']
   | None => negb ok && polys_eqb [p] [p']
   end.
+
+(* ------------------------------- coplanarity / volume of one edge removal *)
+(* all nodes of vs in one plane (through the first of them), exact rationals *)
+Definition planar_b (tbl : list (V3 Q)) (vs : list Z) : bool :=
+  match vs with
+  | [] => true
+  | v0 :: _ =>
+      let pos := pos_of q0 tbl in
+      forallb (fun a => forallb (fun b => forallb (fun c =>
+        Qeq_bool (planar_triple QOps pos (pos v0) a b c) 0) vs) vs) vs
+  end.
+(* instance of C20_remove_one_edge_volume on a real step: if the step was
+   accepted and the fused faces are coplanar the volume is unchanged *)
+Definition chk_edge_vol (tbl : list (V3 Q)) (p : poly) (A B : Z) (ok : bool) (p' : poly) : bool :=
+  if ok && planar_b tbl (fused_nodes p A B) then Qeq_bool (volQ tbl [p']) (volQ tbl [p]) else true.
